@@ -12,8 +12,9 @@ theorem P_iff (k : Conn) : P k ↔ (k.bad = false ∧ k.uaf = false ∧
 theorem FrameC_iff (k k' : Conn) : FrameC k k' ↔ (k'.brCreated = k.brCreated ∧ k'.brDispatch = k.brDispatch ∧
     k'.brWalk = k.brWalk ∧ (k.cl = .running → k'.cl = .running ∧ k'.phase = k.phase) ∧
     (k.phase = .dead → k.freed = false → k'.phase = .dead ∧ k'.freed = false) ∧
-    (k.phase = .accepting → k'.phase = .accepting) ∧ (k.phase = .none → k'.phase = .none)) :=
-  ⟨fun h => ⟨h.b1, h.b2, h.b3, h.run, h.dead, h.acc, h.non⟩, fun ⟨a, b, c, d, e, f, g⟩ => ⟨a, b, c, d, e, f, g⟩⟩
+    (k.phase = .accepting → k'.phase = .accepting) ∧ (k.phase = .none → k'.phase = .none) ∧ (k.phase ≠ .none → k'.phase ≠ .none)) :=
+  ⟨fun h => ⟨h.b1, h.b2, h.b3, h.run, h.dead, h.acc, h.non, h.nn⟩,
+   fun ⟨a, b, c, d, e, f, g, i⟩ => ⟨a, b, c, d, e, f, g, i⟩⟩
 
 /-- destructure the record and the invariant, split on the phase and the owner flags, grind -/
 macro "conn_crush" k:ident hp:ident : tactic => `(tactic| (
